@@ -100,23 +100,27 @@ def check_rpy(case, ctx):
     tol_ang = 1e-13 + 2e-14 / cp          # atan2/arcsin of quantities of size cos(pitch) with absolute error ~eps
     A3 = np.vstack([rpy[None], case.p["extra"]]) if len(case.p["extra"]) else rpy[None]
     routes = {
-        "rpy/Quaternion": (lambda: np.asarray(ahrs.Quaternion(rpy=rpy.copy())), lambda q: np.asarray(ahrs.Quaternion(q.copy()).to_angles())),
-        "rpy/QuaternionArray": (lambda: np.asarray(ahrs.QuaternionArray(rpy=A3.copy()))[0],
+        "rpy/Quaternion": (lambda h: np.asarray(ahrs.Quaternion(rpy=h)), lambda q: np.asarray(ahrs.Quaternion(q.copy()).to_angles())),
+        "rpy/QuaternionArray": (lambda h: np.asarray(ahrs.QuaternionArray(rpy=h))[0],
                                 lambda q: np.asarray(ahrs.QuaternionArray(np.array([q, q])).to_angles())[1]),
-        "rpy/free": (lambda: o.rpy2q(rpy.copy()), lambda q: o.q2rpy(q.copy())),
+        "rpy/free": (lambda h: o.rpy2q(h), lambda q: o.q2rpy(q.copy())),
         # secondary entry points and aliases of the same conversions
-        "rpy/Quaternion.from_rpy": (lambda: np.asarray(ahrs.Quaternion().from_rpy(rpy.copy())), lambda q: np.asarray(ahrs.Quaternion(q.copy()).to_angles())),
-        "rpy/Quaternion.from_angles": (lambda: np.asarray(ahrs.Quaternion().from_angles(rpy.copy())), lambda q: np.asarray(ahrs.Quaternion(q.copy()).to_angles())),
-        "rpy/QuaternionArray.from_rpy": (lambda: np.asarray(ahrs.QuaternionArray().from_rpy(A3.copy()))[0], lambda q: np.asarray(ahrs.QuaternionArray(q.copy()[None]).to_angles())[0]),
-        "rpy/cardan": (lambda: o.cardan2q(rpy.copy()), lambda q: o.q2cardan(q.copy())),
-        "rpy/cardan[in_deg]": (lambda: o.cardan2q(np.degrees(rpy), in_deg=True), lambda q: np.radians(o.q2cardan(q.copy(), in_deg=True))),
-        "rpy/Quaternion(angles=)": (lambda: np.asarray(ahrs.Quaternion(angles=rpy.copy())), lambda q: np.asarray(ahrs.Quaternion(q.copy()).to_angles())),
-        "rpy/QuaternionArray(angles=)": (lambda: np.asarray(ahrs.QuaternionArray(angles=A3.copy()))[0], lambda q: np.asarray(ahrs.QuaternionArray(q.copy()[None]).to_angles())[0]),
+        "rpy/Quaternion.from_rpy": (lambda h: np.asarray(ahrs.Quaternion().from_rpy(h)), lambda q: np.asarray(ahrs.Quaternion(q.copy()).to_angles())),
+        "rpy/Quaternion.from_angles": (lambda h: np.asarray(ahrs.Quaternion().from_angles(h)), lambda q: np.asarray(ahrs.Quaternion(q.copy()).to_angles())),
+        "rpy/QuaternionArray.from_rpy": (lambda h: np.asarray(ahrs.QuaternionArray().from_rpy(h))[0], lambda q: np.asarray(ahrs.QuaternionArray(q.copy()[None]).to_angles())[0]),
+        "rpy/cardan": (lambda h: o.cardan2q(h), lambda q: o.q2cardan(q.copy())),
+        "rpy/cardan[in_deg]": (lambda h: o.cardan2q(h, in_deg=True), lambda q: np.radians(o.q2cardan(q.copy(), in_deg=True))),
+        "rpy/Quaternion(angles=)": (lambda h: np.asarray(ahrs.Quaternion(angles=h)), lambda q: np.asarray(ahrs.Quaternion(q.copy()).to_angles())),
+        "rpy/QuaternionArray(angles=)": (lambda h: np.asarray(ahrs.QuaternionArray(angles=h))[0], lambda q: np.asarray(ahrs.QuaternionArray(q.copy()[None]).to_angles())[0]),
     }
     for r, (fwd, back) in routes.items():
-        out = call(fwd)
+        # the array the caller hands over and keeps: the round trip is judged against it afterwards
+        held = np.degrees(rpy) if "in_deg" in r else (A3.copy() if "QuaternionArray" in r else rpy.copy())
+        pristine = held.copy()
+        out = call(fwd, held)
         if not ctx.returned(out, route=r):
             continue
+        ctx.ok("the angles handed over are still the caller's angles after the conversion", np.array_equal(held, pristine), {"handed_over": pristine, "afterwards": held}, route=r)
         q = as_real_array(ctx, out.value, (4,), route=r, what="quaternion")
         if q is None:
             continue
@@ -137,9 +141,12 @@ def check_rpy(case, ctx):
     for r, fn in (("rpy/free", lambda q_: o.q2rpy(q_)), ("rpy/cardan", lambda q_: o.q2cardan(q_)), ("rpy/free[q2euler]", lambda q_: o.q2euler(q_)), ("axang/free", flat_axang)):
         forms.invariant(ctx, r, fn, [qv], lists=True, objects=True, tol=1e-12,
                         clause="a back-conversion gives the same angles whether the quaternion comes as an array, a list or one of the library's own objects")
-    out = call(lambda: (o.rpy2q(np.degrees(rpy), in_deg=True), o.q2rpy(o.rpy2q(rpy.copy()), in_deg=True)))
+    held_deg = np.degrees(rpy)
+    out = call(lambda: (o.rpy2q(held_deg, in_deg=True), o.q2rpy(o.rpy2q(rpy.copy()), in_deg=True)))
     if ctx.returned(out, route="rpy/free"):
         qd, angd = out.value
+        ctx.le("q2rpy(rpy2q(a, in_deg), in_deg) returns the caller's a (degrees; the array handed over, as it is afterwards)",
+               angdiff(np.radians(np.asarray(o.q2rpy(qd, in_deg=True), float)), np.radians(held_deg)), tol_ang, {"a_afterwards": held_deg, "a_handed_over": np.degrees(rpy)}, route="rpy/free")
         ctx.le("rpy2q(in_deg) = rpy2q(radians)", rq.qdist_sign(qd, o.rpy2q(rpy.copy())), 1e-14, route="rpy/free")
         ctx.le("q2rpy(in_deg) returns degrees", angdiff(np.radians(angd), rpy), tol_ang, route="rpy/free")
 
